@@ -421,6 +421,25 @@ def run_check(prop, tier, seed, runs=None, budget=None, workers=None, start=0, q
     path, doc = minimise_and_write(mod, prop, seed, tier, idx, sc)
     ok, log = verify_replay_fresh(prop, path)
     if not ok:
+        # The violation was observed in the batch and again while minimising, but not in the fresh interpreter: the code under
+        # test is itself nondeterministic (e.g. it seeds from OS entropy) and the minimised scenario may only fail now and then.
+        # Retry; then fall back to the un-minimised scenario, which failed every time it was executed so far.
+        for attempt in range(4):
+            ok, log = verify_replay_fresh(prop, path)
+            if ok:
+                break
+        if not ok:
+            doc["scenario_min"], doc["ops_min"] = doc["scenario_original"], doc["ops_original"]
+            doc["note"] = "not minimised: the code under test is nondeterministic and the shrunk scenario failed only intermittently"
+            with open(path, "w") as f:
+                json.dump(doc, f, indent=1, sort_keys=True)
+            for attempt in range(4):
+                ok, log = verify_replay_fresh(prop, path)
+                if ok:
+                    break
+        if ok:
+            print("  note: the replay reproduces intermittently - the code under test is nondeterministic")
+    if not ok:
         print(f"HARNESS-ERROR property={prop}: replay of {path} in a fresh interpreter did not reproduce:\n{log[-1500:]}")
         return 2
     print(f"minimised {doc['ops_original']} -> {doc['ops_min']} list items; "
